@@ -75,6 +75,7 @@ func (c10) Gen(r *sim.Rand, c *sim.Case, tier string) {
 				F: []float64{float64(r.Range(5, 80)), float64(r.Range(5, 80)), 0, 0}, S: []sim.Str{sim.Str(g.ImageName(f)), sim.Str(fmt.Sprintf("nested-pic-%d", k)), "t"}})
 		}
 	}
+	sideTable := c.Cfg["foreign"] == 0 && r.Chance(0.12)
 	n := r.Range(3, 20)
 	for len(ops) < n {
 		switch x := r.Intn(10); {
@@ -94,6 +95,18 @@ func (c10) Gen(r *sim.Rand, c *sim.Case, tier string) {
 		default:
 			ops = append(ops, sim.Op{K: r.Pick("hdr", "ftr"), S: []sim.Str{sim.Str(r.Pick("default", "first", "even")), "hf"}})
 		}
+	}
+	if sideTable {
+		// a table is built on the side, gets a picture, the document is saved (and some more pictures are added), and only then the
+		// table goes into the body: its picture must show what it was given like every other one
+		f := r.Intn(3)
+		k := r.Intn(len(ops) + 1)
+		side := []sim.Op{{K: "t.create", I: []int{2, 2, 5000, 0, 0}},
+			{K: "cellimg", I: []int{f, r.Range(2, 30), r.Range(2, 30), 440000 + r.Intn(1000), 0, 0, 0, 0, 2000, r.Intn(2), r.Intn(2)}, F: []float64{30, 20, 0, 0}, S: []sim.Str{sim.Str(g.ImageName(f)), "side-table-picture", "t"}},
+			{K: "save", I: []int{r.Intn(2)}}}
+		rest := append([]sim.Op{}, ops[k:]...)
+		ops = append(append(ops[:k:k], side...), rest...)
+		ops = append(ops, sim.Op{K: "t.attach"}, sim.Op{K: "save", I: []int{r.Intn(2)}})
 	}
 	ops = sprinkleSaves(r, ops, 0, r.Range(2, 7), 0.45, 0.1)
 	if c.Cfg["foreign"] == 0 && r.Chance(0.25) {
@@ -166,6 +179,7 @@ func (p c10pic) expectedExtent() (int64, int64) {
 
 func (c10) Exec(c *sim.Case, env *Env) []sim.Violation {
 	model := map[int][]c10pic{}
+	pending := map[int][]c10pic{}
 	renderFailed := ""
 	obs := &histObserver{panics: true}
 	obs.after = func(w *world.World, op sim.Op, ds *world.Doc, o *world.Obs) {
@@ -195,7 +209,14 @@ func (c10) Exec(c *sim.Case, env *Env) []sim.Violation {
 			if op.K == "imgfile" && op.Int(8) == 1 {
 				p.extent = false // dimensions of a truncated file are whatever its header says
 			}
+			if op.K == "cellimg" && op.Int(8) >= 2000 {
+				pending[ds.Slot] = append(pending[ds.Slot], p) // in a table that is not in the body yet: shown once the table is attached
+				return
+			}
 			model[ds.Slot] = append(model[ds.Slot], p)
+		case "t.attach":
+			model[ds.Slot] = append(model[ds.Slot], pending[ds.Slot]...)
+			pending[ds.Slot] = nil
 		case "foreign":
 			model[ds.Slot] = nil
 			if ds.Foreign != nil {
